@@ -17,10 +17,20 @@ type jet struct {
 	h [][]float64
 }
 
+// jetOrder: 2 (default) or 1. At order 1 the Hessian part is neither stored nor propagated
+// (the value and gradient of every operation depend on values and gradients only, so the
+// order-0 and order-1 parts are the same numbers either way); used for the defining
+// equations of an order-1 run, whose order-2 part is not looked at.
+var jetOrder = 2
+
 func newJet(N int, v float64) jet {
-	j := jet{v: v, g: make([]float64, N), h: make([][]float64, N)}
-	for i := range j.h {
-		j.h[i] = make([]float64, N)
+	j := jet{v: v, g: make([]float64, N)}
+	if jetOrder >= 2 {
+		j.h = make([][]float64, N)
+		buf := make([]float64, N*N)
+		for i := range j.h {
+			j.h[i] = buf[i*N : (i+1)*N : (i+1)*N]
+		}
 	}
 	return j
 }
@@ -36,6 +46,9 @@ func jetOf(s ad.ConstScalar, N int) jet {
 	j := newJet(N, s.GetFloat64())
 	for a := 0; a < N; a++ {
 		j.g[a] = d1(s, a)
+		if j.h == nil {
+			continue
+		}
 		for b := 0; b < N; b++ {
 			j.h[a][b] = d2(s, a, b)
 		}
@@ -51,6 +64,9 @@ func dy(a, b jet, f, fa, fb, faa, fab, fbb float64) jet {
 	r := newJet(N, f)
 	for i := 0; i < N; i++ {
 		r.g[i] = fa*a.g[i] + fb*b.g[i]
+		if r.h == nil {
+			continue
+		}
 		for k := 0; k < N; k++ {
 			r.h[i][k] = fa*a.h[i][k] + fb*b.h[i][k] + faa*a.g[i]*a.g[k] + fab*(a.g[i]*b.g[k]+a.g[k]*b.g[i]) + fbb*b.g[i]*b.g[k]
 		}
@@ -62,6 +78,9 @@ func mo(a jet, f, f1, f2 float64) jet {
 	r := newJet(N, f)
 	for i := 0; i < N; i++ {
 		r.g[i] = f1 * a.g[i]
+		if r.h == nil {
+			continue
+		}
 		for k := 0; k < N; k++ {
 			r.h[i][k] = f1*a.h[i][k] + f2*a.g[i]*a.g[k]
 		}
